@@ -10,6 +10,7 @@ package kit
 import (
 	"context"
 	"errors"
+	"sync"
 
 	"github.com/tokenized/pkg/storage"
 )
@@ -30,6 +31,7 @@ type vkStore struct {
 	failOp          int // the op with this index fails (-1: never)
 	failed          bool
 	mutLog          []string
+	mu              sync.Mutex // the node's goroutines share the store (native runs)
 }
 
 func newVkStore() *vkStore {
@@ -68,6 +70,8 @@ func (s *vkStore) step() bool {
 }
 
 func (s *vkStore) Read(ctx context.Context, key string) ([]byte, error) {
+	s.mu.Lock()
+	defer s.mu.Unlock()
 	if s.step() {
 		return nil, errVkInjected
 	}
@@ -81,6 +85,8 @@ func (s *vkStore) Read(ctx context.Context, key string) ([]byte, error) {
 }
 
 func (s *vkStore) Write(ctx context.Context, key string, body []byte, options *storage.Options) error {
+	s.mu.Lock()
+	defer s.mu.Unlock()
 	if s.step() {
 		return errVkInjected
 	}
@@ -101,6 +107,8 @@ func (s *vkStore) Write(ctx context.Context, key string, body []byte, options *s
 }
 
 func (s *vkStore) Remove(ctx context.Context, key string) error {
+	s.mu.Lock()
+	defer s.mu.Unlock()
 	if s.step() {
 		return errVkInjected
 	}
@@ -122,6 +130,8 @@ func (s *vkStore) Remove(ctx context.Context, key string) error {
 }
 
 func (s *vkStore) Search(ctx context.Context, query map[string]string) ([][]byte, error) {
+	s.mu.Lock()
+	defer s.mu.Unlock()
 	path := query["path"]
 	var out [][]byte
 	for _, e := range s.ents {
@@ -133,6 +143,8 @@ func (s *vkStore) Search(ctx context.Context, query map[string]string) ([][]byte
 }
 
 func (s *vkStore) Clear(ctx context.Context, query map[string]string) error {
+	s.mu.Lock()
+	defer s.mu.Unlock()
 	path := query["path"]
 	var keep []vkEnt
 	for _, e := range s.ents {
@@ -145,6 +157,8 @@ func (s *vkStore) Clear(ctx context.Context, query map[string]string) error {
 }
 
 func (s *vkStore) List(ctx context.Context, path string) ([]string, error) {
+	s.mu.Lock()
+	defer s.mu.Unlock()
 	var out []string
 	for _, e := range s.ents {
 		if len(e.key) >= len(path) && e.key[:len(path)] == path {
@@ -155,9 +169,13 @@ func (s *vkStore) List(ctx context.Context, path string) ([]string, error) {
 }
 
 func (s *vkStore) Copy(ctx context.Context, fromKey, toKey string) error {
+	s.mu.Lock()
 	i := s.find(fromKey)
 	if i < 0 {
+		s.mu.Unlock()
 		return storage.ErrNotFound
 	}
-	return s.Write(ctx, toKey, s.ents[i].data, nil)
+	data := s.ents[i].data
+	s.mu.Unlock()
+	return s.Write(ctx, toKey, data, nil)
 }
